@@ -24,28 +24,40 @@ def fragment_groups(case):
 
 
 # ---- C10: the whole status exchange is the one retried unit
+# unit 0: a silent attempt receives nothing; unit 1 (replies of two or more parts): a silent attempt receives an
+# incomplete selection of the parts before the silence — all but the first part at even positions of the vector, only
+# the first part at odd ones — and a malformed datagram arrives after such a selection (Spec/Gs1Faults.lean:
+# Attempt.lost / Ending.malformed; Run/Gs1Faults.lean: gs1Got)
 
 def c10_eligible(valid):
     return valid.want.startswith("OK") and not valid.notwf and valid.seg()[0] <= 4
 
 
 def c10_units(valid):
-    return [0]
+    return [0, 1] if valid.seg()[0] >= 2 else [0]
+
+
+def _got(unit, i, ds):
+    if unit == 0:
+        return []
+    return ds[1:] if i % 2 == 0 else ds[:1]
 
 
 def c10_build(valid, unit, v, r, new_id):
-    """outcome vector v (S silent, F send fault, M malformed, V valid): a silent attempt is one silence, a malformed
-    one a datagram that is not UTF-8, a valid one all the parts"""
+    """outcome vector v (S silent, F send fault, M malformed, V valid): a silent attempt is (some parts and) one
+    silence, a malformed one (some parts and) a datagram that is not UTF-8, a valid one all the parts"""
     c = valid.case()
     ds = c.script[0] if c.script else []
     newds, faults = [], []
-    for e in v:
+    for i, e in enumerate(v):
         if e == "S":
+            newds += _got(unit, i, ds)
             newds.append(None)
             faults.append(False)
         elif e == "F":
             faults.append(True)
         elif e == "M":
+            newds += _got(unit, i, ds)
             newds.append(malformed.CURRENT)
             faults.append(False)
         else:
@@ -55,6 +67,16 @@ def c10_build(valid, unit, v, r, new_id):
     c.args[FAMILY["retries"]] = str(r)
     c.opts = [o for o in c.opts if not o.startswith("f=")] + ["f=" + "".join("1" if f else "0" for f in faults)]
     return c.line(new_id)
+
+
+def c10_plan_request(valid, unit, v, r):
+    """model-driver request for the SPEC's plan script of this (base, unit, vector, r) — see props/families/valve.py;
+    theorems C10_gs1_query_* (Props/C10_gs1_whole.lean)"""
+    import re
+    m = re.fullmatch(r"ga(\d+)_(\d+)", valid.id)
+    if not m:
+        return None
+    return f"gs1plan {m.group(1)} {m.group(2)} {r} {unit} {v}"
 
 
 def c10_attempts(valid, unit, sends, clean):
